@@ -20,7 +20,7 @@ def facts(c):
 def setup(c):
     c.cov["rule"] = (
         "stateful cases (`# case n`, `reset`): the real rawkv.Client over mocktikv (2 stores) with random region layouts; "
-        "`topo split|merge|leader <key>` between calls, and `inj n:kind:key` / `inj k<firstkey>#j:kind:key` = the wrapped RPC client "
+        "`topo split|merge|leader|sendfail <key>` between calls (sendfail = RegionCache.OnSendFail on the key's region: the store epoch is bumped, the sender answers the next requests on cached regions of that store with a pseudo region error WITHOUT an RPC), and `inj n:kind:key` / `inj k<firstkey>#j:kind:key` = the wrapped RPC client "
         "performs the topology change before the n-th request of the call (batch calls: before the j-th request whose first key is "
         "<firstkey>), i.e. between region lookup and request and between the partial requests of one call. ops: put(ttl)/get/del/cas, "
         "bget/bput/bdel (duplicates, >513 keys and >16 KiB per region for chunking), scan/rscan (limits 0..100, key-only), delrange, checksum "
